@@ -20,7 +20,7 @@ LEVEL = 'model_checking'
 BUDGET = {'quick': 120, 'thorough': 1200}
 RULE = ('the real circusd.main() runs in-process (argv patched, loop.start() handed to the explorer, SystemExit captured) on '
         'configurations {1-2 watchers, obedient/stubborn workers, watcher and global warmup, 0-2 managed sockets (real inet + '
-        'unix), pid file}; after <= 2 requests, ONE termination event from {quit request, SIGTERM, SIGINT, SIGQUIT} is '
+        'unix), pid file, an on-demand watcher whose socket-triggered start is in progress}; after <= 2 requests, ONE termination event from {quit request, SIGTERM, SIGINT, SIGQUIT} is '
         'delivered at EVERY loop-iteration boundary from process start (including during the initial start of the watchers and '
         'inside in-flight operations), thorough: plus one worker death anywhere; pid-file matrix content x liveness')
 ASSUMPTIONS = ['signal handlers are invoked by calling the registered SysHandler.signal(signum) between loop iterations '
